@@ -62,6 +62,11 @@ inductive Name where
 inductive CaseCont where | break_ | fallThrough | continue_
   deriving DecidableEq, Repr
 
+/-- the kind of command a failing redirection is attached to (C10) -/
+inductive RedirKind where
+  | regular | special | function | external | compound | absent
+  deriving DecidableEq, Repr
+
 mutual
   inductive Cmd where
     | probe (marker : Nat)                 -- regular built-in: trace (marker, $?), `$?` preserved
@@ -81,6 +86,12 @@ mutual
     | forLoop (values : Nat) (body : List Item)
     | caseC (items : List (Bool × List Item × CaseCont))   -- (pattern matches, body, continuation)
     | fundef (name : Name) (body : Cmd)
+    -- shell errors (C10)
+    | expErr                               -- simple command whose word expansion fails (`probe ${u?}`)
+    | assignErr                            -- assignment to a read-only variable, alone or before a command
+    | redirErr (k : RedirKind)             -- command whose redirection cannot be performed
+    | specialErr (wrapped : Bool) (status : Nat)   -- usage error of a special built-in, directly or via `command`
+    | trapExit (body : List Item)          -- `trap '…' EXIT`
   inductive Pipeline where
     | mk (negation : Bool) (commands : List Cmd)
   inductive Item where
@@ -95,6 +106,7 @@ structure St where
   funcs : List (Name × Cmd) := []
   counters : List (Nat × Nat) := []
   trace : List (Nat × Nat) := []          -- newest first
+  exitTrap : Option (List Item) := none
   deriving Inhabited
 
 def St.push (s : St) (f : Frame) : St := { s with stack := f :: s.stack }
@@ -106,6 +118,10 @@ def St.errexitApplicable (s : St) : Bool := s.errexit && !s.stack.contains .cond
 /-- `apply_errexit` -/
 def St.applyErrexit (s : St) : Res :=
   if s.status ≠ 0 ∧ s.errexitApplicable then .break_ (.exit none) else .continue_
+
+/-- `Handle for expansion::Error` (also assignment errors): the error status travels in the divert -/
+def St.expansionError (s : St) : Res :=
+  if s.errexitApplicable then .break_ (.exit (some 2)) else .break_ (.interrupt (some 2))
 
 /-- `apply_result` -/
 def St.applyResult (s : St) : Res → St
@@ -203,6 +219,19 @@ mutual
           | r => finishSimple s1 r
       | .fundef name body =>
         finishSimple { s with funcs := defineFn s.funcs name body, status := 0 } .continue_
+      | .expErr => (s, s.expansionError)
+      | .assignErr => (s, s.expansionError)
+      | .redirErr k =>
+        -- `redir::Error::handle`: status 2, continue; a special built-in then interrupts the shell
+        let s1 := { s with status := 2 }
+        (match k with
+         | .special => (s1, .break_ (.interrupt none))
+         | _ => (s1, s1.applyErrexit))
+      | .specialErr wrapped status =>
+        -- `report_error`/`report_failure`: the innermost `Builtin` frame decides (`command` pushes a
+        -- frame with `is_special = false`)
+        finishSimple { s with status := status } (if wrapped then .continue_ else .break_ (.interrupt none))
+      | .trapExit body => finishSimple { s with exitTrap := some body, status := 0 } .continue_
       | .group body => execList fuel s body
       | .subshell body =>
         -- the child runs on a copy with a `Subshell` frame; only status and output come back
@@ -387,14 +416,52 @@ mutual
         execPipeMembers fuel { s with trace := c2.trace } rest final'
 end
 
+/-- one command line as `read_eval_loop` sees it: a complete command, or text that does not parse -/
+inductive Line where
+  | cmds (l : List Item)
+  | syntaxError
+
 /-- `read_eval_loop` + `apply_result` on a script given as a list of command lines -/
-def runScript : Nat → St → List (List Item) → St × Res
+def runScript : Nat → St → List Line → St × Res
   | 0, s, _ => (s, .outOfFuel)
   | _+1, s, [] => (s, .continue_)
-  | fuel+1, s, line :: rest =>
+  | fuel+1, s, .syntaxError :: _ =>
+    -- `Handle for parser::Error`: Interrupt(Some(ERROR))
+    let r := Res.break_ (.interrupt (some 2))
+    (s.applyResult r, r)
+  | fuel+1, s, .cmds line :: rest =>
     let (s1, r) := execList fuel s line
     match r with
     | .continue_ => runScript fuel s1 rest
     | r => (s1.applyResult r, r)
+
+/-- `run_exit_trap` / `run_trap`: the action runs under a `Trap` frame; `$?` is restored afterwards
+    unless the action itself was interrupted -/
+def runExitTrap (fuel : Nat) (s : St) : St × Res :=
+  match s.exitTrap with
+  | none => (s, .continue_)
+  | some body =>
+    let prev := s.status
+    let (s1, r) := execList fuel (s.push .trap) body
+    let s1 := s1.pop
+    match r with
+    | .outOfFuel => (s1, .outOfFuel)
+    | .break_ (.interrupt (some _)) =>
+      let r' := Res.break_ (.interrupt (some s1.status))
+      (s1.applyResult r', r')
+    | .break_ (.interrupt none) => (s1, r)
+    | r => ({ s1 with status := prev }.applyResult r, r)
+
+/-- the shell process: `run_as_shell_process` after option parsing -/
+def runShell (fuel : Nat) (s : St) (script : List Line) : St × Res :=
+  let (s1, r) := runScript fuel s script
+  match r with
+  | .outOfFuel => (s1, .outOfFuel)
+  | .break_ (.abort _) => (s1, r)
+  | _ =>
+    let (s2, r2) := runExitTrap fuel s1
+    match r2 with
+    | .outOfFuel => (s2, .outOfFuel)
+    | _ => (s2, r)
 
 end YashModel.Exec
